@@ -93,3 +93,41 @@ class Runner(object):
         for th in threads:
             th.join(5)
         return results
+
+
+    def run_many(self, scheds, procs=12):
+        """run() for every schedule, spread over forked worker processes (each child inherits the
+        library in exactly the parent's state, so every schedule starts from the same state as in
+        the sequential loop that never mutates it). Returns the list of results in order."""
+        import json
+        import os
+        if len(scheds) < 4 * procs:
+            return [self.run(sg) for sg in scheds]
+        chunks = [scheds[i::procs] for i in range(procs)]
+        pipes = []
+        for ch in chunks:
+            r, w = os.pipe()
+            pid = os.fork()
+            if pid == 0:
+                try:
+                    os.close(r)
+                    out = [repr(self.run(sg)) for sg in ch]
+                    with os.fdopen(w, "w") as f:
+                        json.dump(out, f)
+                finally:
+                    os._exit(0)
+            os.close(w)
+            pipes.append((pid, r))
+        parts = []
+        for pid, r in pipes:
+            with os.fdopen(r) as f:
+                txt = f.read()
+            os.waitpid(pid, 0)
+            parts.append(json.loads(txt) if txt else None)
+        out = [None] * len(scheds)
+        for i, part in enumerate(parts):
+            if part is None or len(part) != len(chunks[i]):
+                raise RuntimeError("schedule worker %d died" % i)
+            for j, v in enumerate(part):
+                out[i + j * procs] = eval(v, {"__builtins__": {}}, {"bytearray": bytearray})
+        return out
